@@ -71,6 +71,16 @@ func hasQuant(t *Term, memo map[*Term]bool) bool {
 
 // smtTextX: with reduced=true, hypotheses about functional content are dropped (sound for proving).
 func (p *Prog) smtTextX(ob *Obligation, uses []string, reduced bool) string {
+	return p.smtTextM(ob, uses, reduced, false)
+}
+
+// smtTextM: ground=true builds the generator-instantiated quantifier-free variant (see ground.go).
+func (p *Prog) smtTextM(ob *Obligation, uses []string, reduced, ground bool) string {
+	return p.smtTextI(ob, uses, reduced, ground, false)
+}
+
+// smtTextI: intAddr=true additionally moves 64-bit address arithmetic into linear integer arithmetic (intmode.go).
+func (p *Prog) smtTextI(ob *Obligation, uses []string, reduced, ground, intAddr bool) string {
 	pr := NewPrinter()
 	var asserts []*Term
 	if reduced && ob.Kind == "lemma" {
@@ -119,8 +129,16 @@ func (p *Prog) smtTextX(ob *Obligation, uses []string, reduced bool) string {
 		}
 		asserts = kept
 	}
-	asserts = append(asserts, ob.PC)
-	asserts = append(asserts, Not(ob.Goal))
+	if ground {
+		g, ok := groundQuery(asserts, ob.PC, ob.Goal)
+		if !ok {
+			return ""
+		}
+		asserts = g
+	} else {
+		asserts = append(asserts, ob.PC)
+		asserts = append(asserts, Not(ob.Goal))
+	}
 	// ground instances of table axioms at every table application
 	if ob.Fx != nil && len(ob.Fx.TableInsts) > 0 {
 		seenT := map[*Term]bool{}
@@ -183,6 +201,16 @@ func (p *Prog) smtTextX(ob *Obligation, uses []string, reduced bool) string {
 			asserts = append(asserts, extra...)
 		}
 	}
+	if intAddr {
+		tr, ok, why := toIntQuery(asserts, p.SpecFns)
+		if !ok {
+			if os.Getenv("GVC_DEBUG") != "" {
+				fmt.Fprintf(os.Stderr, "intmode: %s: %s\n", ob.Name, why)
+			}
+			return ""
+		}
+		asserts = tr
+	}
 	// collect UF signatures
 	ufSig := map[string]*Term{}
 	seen := map[*Term]bool{}
@@ -228,6 +256,9 @@ func (p *Prog) smtTextX(ob *Obligation, uses []string, reduced bool) string {
 			}
 			done[file+":"+s] = true
 			for _, f := range sf.Sections[s] {
+				if ground && strings.HasPrefix(f, "(assert") && strings.Contains(f, "forall") {
+					continue
+				}
 				if reduced && (ob.Kind == "inv-step" || ob.Kind == "post" || ob.Kind == "lemma") {
 					// proof-step mode: defined spec functions are opaque symbols (fewer facts: sound)
 					if d, ok := p.OpaqueDecl[f]; ok {
@@ -345,17 +376,31 @@ func (p *Prog) discharge(obls []*Obligation, usesOf func(*Obligation) []string, 
 	// render sequentially (term tables are not thread safe), solve in parallel
 	files := make([]string, len(obls))
 	redFiles := make([]string, len(obls))
+	gndFiles := make([]string, len(obls))
+	gintFiles := make([]string, len(obls))
 	for i, ob := range obls {
 		txt := p.smtText(ob, usesOf(ob)) + "(check-sat)\n"
 		f := filepath.Join(outDir, fmt.Sprintf("%04d_%s.smt2", i, safeFile(ob.Name)))
 		os.WriteFile(f, []byte(txt), 0o644)
 		files[i] = f
+		if !ob.MustFail && ob.Fx != nil && (hasQuant(ob.Goal, map[*Term]bool{}) || anyQuant(ob.Assume)) {
+			if gt := p.smtTextM(ob, usesOf(ob), false, true); gt != "" {
+				gf := filepath.Join(outDir, fmt.Sprintf("%04d_%s.ground.smt2", i, safeFile(ob.Name)))
+				os.WriteFile(gf, []byte(gt+"(check-sat)\n"), 0o644)
+				gndFiles[i] = gf
+			}
+			if gt := p.smtTextI(ob, usesOf(ob), false, true, true); gt != "" {
+				gf := filepath.Join(outDir, fmt.Sprintf("%04d_%s.gint.smt2", i, safeFile(ob.Name)))
+				os.WriteFile(gf, []byte(gt+"(check-sat)\n"), 0o644)
+				gintFiles[i] = gf
+			}
+		}
 		tryReduced := false
 		switch ob.Kind {
 		case "frame", "bounds", "nil", "div", "variant", "assert":
 			tryReduced = true
 		case "inv-step", "post":
-			tryReduced = ob.Fx != nil && (ob.HasSteps || ob.Kind == "post")
+			tryReduced = ob.Fx != nil
 		case "lemma":
 			tryReduced = true
 		}
@@ -378,33 +423,111 @@ func (p *Prog) discharge(obls []*Obligation, usesOf func(*Obligation) []string, 
 		go func(i int) {
 			defer wg.Done()
 			defer func() { <-sem }()
-			var st, sv, out string
-			var secs float64
-			if redFiles[i] != "" {
-				st, sv, out, secs = solveFile(redFiles[i], quickSecs, quickSecs+2)
-				if st == "unsat" {
-					sv += "(reduced hypotheses)"
+			type cand struct{ file, tag string }
+			var cands []cand
+			if !obls[i].MustFail {
+				if gintFiles[i] != "" {
+					cands = append(cands, cand{gintFiles[i], "(generator-instantiated, addresses in LIA)"})
+				}
+				if gndFiles[i] != "" {
+					cands = append(cands, cand{gndFiles[i], "(generator-instantiated, quantifier-free)"})
+				}
+				if redFiles[i] != "" {
+					cands = append(cands, cand{redFiles[i], "(reduced hypotheses)"})
 				}
 			}
-			if st != "unsat" {
-				var s2 float64
-				if obls[i].MustFail {
-					// vacuity guard: only a proof of false matters; do not spend the portfolio on finding a model
-					st, sv, out, s2 = solveFile(files[i], quickSecs, quickSecs)
-				} else {
-					st, sv, out, s2 = solveFile(files[i], quickSecs, fullSecs)
-				}
-				secs += s2
+			cands = append(cands, cand{files[i], ""})
+			full := obls[i].MustFail
+			t0 := time.Now()
+			var cfiles []string
+			for _, c := range cands {
+				cfiles = append(cfiles, c.file)
 			}
-			r := &Result{Ob: obls[i], Status: st, Solver: sv, Secs: secs, File: files[i], Output: out}
+			st, sv, out := raceCandidates(cfiles, quickSecs, fullSecs, full)
+			tagOf := map[string]string{}
+			for _, c := range cands {
+				tagOf[c.file] = c.tag
+			}
+			if st.status == "unsat" {
+				sv += tagOf[st.file]
+			}
+			r := &Result{Ob: obls[i], Status: st.status, Solver: sv, Secs: time.Since(t0).Seconds(), File: files[i], Output: out}
 			if obls[i].MustFail {
-				r.OK = st != "unsat"
+				r.OK = st.status != "unsat"
 			} else {
-				r.OK = st == "unsat"
+				r.OK = st.status == "unsat"
 			}
 			results[i] = r
 		}(i)
 	}
 	wg.Wait()
 	return results
+}
+
+type raceRes struct {
+	status string
+	file   string
+}
+
+
+// raceCandidates: weakened variants of one obligation (any unsat is a proof) and the full query (last), which
+// alone may report sat.  Stage 1: z3-new on every variant for quick seconds; stage 2: all solvers on all variants.
+func raceCandidates(files []string, quickSecs, fullSecs int, vacuity bool) (raceRes, string, string) {
+	fullFile := files[len(files)-1]
+	type r struct{ st, solver, out, file string }
+	run := func(sps []solverSpec, secs int) (r, bool) {
+		ctx, cancel := context.WithCancel(context.Background())
+		defer cancel()
+		ch := make(chan r, len(files)*len(sps))
+		n := 0
+		for _, f := range files {
+			for _, sp := range sps {
+				f, sp := f, sp
+				n++
+				go func() {
+					s, o := runSolver(ctx, sp, f, secs)
+					ch <- r{s, sp.name, o, f}
+				}()
+			}
+		}
+		best := r{st: "unknown", solver: "portfolio", file: fullFile}
+		for k := 0; k < n; k++ {
+			x := <-ch
+			if x.st == "unsat" {
+				return x, true
+			}
+			if x.file == fullFile {
+				if x.st == "sat" {
+					best = x
+					if vacuity {
+						return x, true
+					}
+				} else if x.st == "timeout" && best.st == "unknown" {
+					best = r{"timeout", "portfolio", x.out, fullFile}
+				} else if x.st == "error" && best.st == "unknown" {
+					best.out += "\n" + x.solver + ": " + x.out
+				}
+			}
+		}
+		return best, best.st == "sat"
+	}
+	x, done := run(solvers[:1], quickSecs)
+	if done {
+		return raceRes{x.st, x.file}, x.solver, x.out
+	}
+	if vacuity {
+		return raceRes{x.st, x.file}, x.solver, x.out
+	}
+	x, _ = run(solvers, fullSecs)
+	return raceRes{x.st, x.file}, x.solver, x.out
+}
+
+func anyQuant(ts []*Term) bool {
+	memo := map[*Term]bool{}
+	for _, t := range ts {
+		if hasQuant(t, memo) {
+			return true
+		}
+	}
+	return false
 }
